@@ -26,6 +26,7 @@ Spec == Init /\ [][Next]_vars
 ModelRows == kind = "model" => LET p == PGridPos(u, v)[k] IN SymRowOK(u, v, p) /\ LangmuirCross(u, v, p)
 ModelZero == kind = "model" => SymZeroOK(u, v)
 PointRows == kind = "point" => PtOK(u, v, Queries(u)[k])
+PointScale == kind = "point" => PtScaleInvariant(u, v, Queries(u)[k])
 \* queries are ascending, start below the data and end exactly at the last point
 QueryShape == kind = "point" =>
    LET qs == Queries(u) IN /\ RLt(qs[1], u[1]) /\ qs[Len(qs)] = u[Len(u)]
